@@ -240,7 +240,7 @@ def translate_program(objdir):
         if m.startswith("lock "):
             locked = True
             m = m[5:]
-        if locked and m != "cmpxchg":
+        if locked and m not in ("cmpxchg", "xchg"):
             raise TranslateError("unsupported locked instruction " + where)
         if m in ALU and len(opl) == 2:
             d, s = opl
@@ -279,6 +279,13 @@ def translate_program(objdir):
             if r is None or r[0] != 32:
                 raise TranslateError("unsupported cmpxchg source " + where)
             out.append("ICmpxchg %s %s" % ("true" if locked else "false", r[1]))
+        elif m == "xchg" and len(opl) == 2 and (is_mem(opl[0]) != is_mem(opl[1])):
+            mo, ro = (opl[0], opl[1]) if is_mem(opl[0]) else (opl[1], opl[0])
+            mem_status(i, mo)
+            r = reg_of(ro)
+            if r is None or r[0] != 32:
+                raise TranslateError("unsupported xchg operand " + where)
+            out.append("IXchg %s" % r[1])
         elif m.startswith("set") and m[3:] in CC and len(opl) == 1 and reg_of(opl[0]) and reg_of(opl[0])[0] == 8:
             out.append("ISetcc %s %s" % (CC[m[3:]], reg_of(opl[0])[1]))
         elif m == "movzx" and len(opl) == 2 and reg_of(opl[0]) and reg_of(opl[1]) and reg_of(opl[0])[0] == 32 and reg_of(opl[1])[0] == 8:
